@@ -461,7 +461,7 @@ func c19churn(idx int) run.Result {
 
 func init() {
 	run.Register(&run.Prop{
-		ID: "C19", Level: "fault_enumeration",
+		ID: "C19", PassiveWatchdog: true, Level: "fault_enumeration",
 		Rule: func(tier string) string {
 			return "two parts. (per ending, hook H1, deterministic) endings {EOF at a request boundary, EOF mid-request, reset at a boundary, reset mid-request, QUIT with a request behind it, malformed frame (peer keeps the connection open), EOF behind a request wrapped in one to three arrays, write failure on the 1st/2nd/3rd write, write accepting n bytes then failing, rejected certificate (fabricated TLS state under a common-name rule, peer keeps the connection open), server Stop while idle, server Stop while parked in the middle of a request} (plus, on real plain and TLS sockets, QUIT and a malformed frame from a client that then keeps its socket open and silent: the client must see the end of stream and no connection goroutine may stay parked on it; Stop while a client that asked for 64 MiB of replies reads none of them (connection goroutine parked in a network write): Stop must return and the socket be closed - if Stop is found parked on a lock while that write is pending, that is the violation; and Stop in the middle of a 16-goroutine connect storm: a connection that still answers after Stop returned or stays registered at a fixed point is a violation) x 0..4 preceding requests x whole/per-request delivery: the connection loop must return, the scripted socket must have been closed and Server.Conns() must not contain the connection. (churn) a child runs the bundled example server on real plain and TLS listeners; after a warm-up with one connection per ending the idle baseline {goroutines with a frame in redis.(*Server).serve/tlsServe/receive, len(Conns()), len(/proc/self/fd)} is sampled at a fixed point; then N cycles (1000 quick / 10000 thorough per case) with up to 1..32 connections in flight mix FIN, RST, half-close, mid-request, QUIT, malformed, TLS ok+FIN/RST/mid-request, TLS without certificate, TLS garbage, TLS abort after ClientHello, and a client that stops reading a large reply and resets. Verdict on the fixed point after everything is closed: a counter that stays above baseline and unchanged over the whole grace window is a leak; still moving = inconclusive"
 		},
